@@ -33,7 +33,7 @@ inline bool withinCapacity(const Snap &s, std::string *why = nullptr) {
             if (p.dims.size() > 7) return bad("more than 7 dimensions");
             size_t bytes = p.type == -1 ? 1 : static_cast<size_t>(p.type);
             for (auto d : p.dims) { if (d > 255) return bad("dimension > 255"); bytes *= d; }
-            if (bytes + p.desc.size() + 16 > 65000) return bad("parameter record larger than a 16-bit offset can span");
+            if (bytes + p.desc.size() + p.dims.size() + 5 > 65535) return bad("parameter record larger than a 16-bit offset can span");
             if (p.type == 2) for (int v : p.ints) if (v < -32768 || v > 32767) return bad("integer beyond 16 bits");
         }
     }
